@@ -140,7 +140,7 @@ def run_cases(ctx: Ctx, n_cases: int, n_values: int, judge: Dict[str, bool]) -> 
         try:
             try:
                 comp = sut_compiler.compile_schema(root, d, ["py"], rng=rng,
-                                                   emit_kw=dict(semi=0.3, comments=0.2, blanks=0.2, path_style="random"))
+                                                   emit_kw=dict(semi=0.3, comments=0.2, blanks=0.2, path_style="random", compact=0.15))
             except Exception as e:
                 harness.compile_failed(res, e, wit)
                 continue
